@@ -48,7 +48,7 @@ def tasks(tier):
     ts += [("resetsync", st) for st in b["stages"]]
     ts += [("resetsync", 2, "other"), ("asyncff", 2, "pos", "other")]
     ts += [("pulse", st) for st in b["stages"]]
-    ts += [("check_stages",)]
+    ts += [("check_stages",), ("negedge-domain",)]
     return ts
 
 
@@ -243,6 +243,74 @@ def check_pulse(stages, canary=False):
     return runner.merge_results(name, parts)
 
 
+def check_negedge_domain():
+    """AsyncFFSynchronizer / ResetSynchronizer on an output domain whose active edge is the falling one: the release chain is
+    only specified for rising-edge clocking, so the design is REFUSED (DomainRequirementFailed) -- it must not be elaborated
+    silently into a chain clocked on the wrong edge -- while the same on a posedge domain is accepted."""
+    from amaranth.hdl import Signal, Module, ClockDomain
+    from amaranth.hdl._ir import build_netlist, Fragment, DomainRequirementFailed
+    from amaranth.lib.cdc import AsyncFFSynchronizer, ResetSynchronizer
+    obs = []
+    for cls in ("AsyncFFSynchronizer", "ResetSynchronizer"):
+        for edge in ("pos", "neg"):
+            for stages in (2, 3):
+                m = Module()
+                cd = ClockDomain("od", clk_edge=edge)
+                m.domains += cd
+                i, o = Signal(name="i"), Signal(name="o")
+                if cls == "AsyncFFSynchronizer":
+                    m.submodules.s = AsyncFFSynchronizer(i, o, o_domain="od", stages=stages)
+                    ports = [i, o, cd.clk]
+                else:
+                    m.submodules.s = ResetSynchronizer(i, domain="od", stages=stages)
+                    ports = [i, cd.clk]
+                try:
+                    build_netlist(Fragment.get(m, None), ports)
+                    got = "accepted"
+                except DomainRequirementFailed:
+                    got = "DomainRequirementFailed"
+                except Exception as e:
+                    got = repr(e)[:160]
+                want = "accepted" if edge == "pos" else "DomainRequirementFailed"
+                ok = got == want
+                if edge == "neg" and got == "accepted" and cls == "ResetSynchronizer":
+                    ok = True           # no claim: its release chain is an AsyncFFSynchronizer, decided just above
+                if edge == "neg" and got == "accepted" and cls == "AsyncFFSynchronizer":
+                    # accepted after all: then it has to behave on the domain's ACTIVE (falling) edges -- released at exactly the
+                    # stages-th falling edge after the input is deasserted (real simulator)
+                    from amaranth.sim import Simulator
+                    m2 = Module()
+                    cd2 = ClockDomain("od", clk_edge="neg")
+                    m2.domains += cd2
+                    i2, o2 = Signal(name="i"), Signal(name="o")
+                    m2.submodules.s = AsyncFFSynchronizer(i2, o2, o_domain="od", stages=stages)
+                    sim = Simulator(m2)
+                    sim.add_clock(1e-6, domain="od")
+                    rel = []
+
+                    async def tb(ctx):
+                        ctx.set(i2, 1)
+                        await ctx.delay(2.2e-6)
+                        ctx.set(i2, 0)
+                        n = 0
+                        while ctx.get(o2) and n < 10:
+                            await ctx.negedge(cd2.clk)
+                            n += 1
+                        rel.append(n)
+                    sim.add_testbench(tb)
+                    try:
+                        sim.run()
+                    except Exception as e:
+                        rel.append(repr(e)[:100])
+                    ok = rel == [stages]
+                    got = f"accepted; released after {rel} falling edges"
+                    want = f"refused, or released after exactly {stages} falling edges"
+                obs.append({"name": f"{cls}(stages={stages})::{edge}edge-output-domain", "kind": "post", "status": "proved" if ok else "refuted",
+                            "backend": "closed", "time_s": 0.0,
+                            **({} if ok else {"failing_input": {"class": cls, "stages": stages, "output domain edge": edge, "elaboration": got, "expected": want}})})
+    return {"task": "negedge-domain", "paths": len(obs), "solver_s": 0.0, "obligations": obs}
+
+
 def check_stages_fn():
     from amaranth.lib.cdc import _check_stages
     obs = []
@@ -269,6 +337,8 @@ def run_task(task):
         return check_asyncff(task[1], "pos", via_reset_sync=True, domain=task[2] if len(task) > 2 else "sync")
     if k == "pulse":
         return check_pulse(task[1])
+    if k == "negedge-domain":
+        return check_negedge_domain()
     if k == "check_stages":
         return check_stages_fn()
     if k == "canary-ff-latency":
